@@ -89,7 +89,7 @@ def gen_hostish(rng):
             else:
                 s = s + ch
     if rng.random() < 0.08:
-        s = '.'.join(['a' * 61] * 4 + ['b' * rng.choice([3, 4, 5, 6, 7])])       # lengths around 253
+        s = '.'.join(['a' * 61] * 4 + ['b' * rng.choice([3, 4, 5, 6, 7])]) + rng.choice(['', '', '.', '..'])  # lengths around 253
     if rng.random() < 0.08:
         s = rng.choice(['1.2.3.4', '1.2.3', '256.1.1.1', '::1', '12.34', '0', 'a.0', '0.a', '1e3', '٣.a', 'a.٣'])
     return s
